@@ -246,7 +246,7 @@ impl Default for AsmOptions {
             pc: 0x2000,
             greedy: false,
             move_macro: false,
-            max_passes: 200,
+            max_passes: 400,
             test: false,
         }
     }
@@ -379,12 +379,16 @@ pub fn codegen_observed(
     mos_core::codegen::verif_hook::set_pass_observer(Some(Box::new(move |pass, digest| {
         let mut s = st2.borrow_mut();
         s.1.push(digest);
-        if !s.0.insert(digest) {
+        // A repeated digest alone is not a proof: where hash-map iteration order leaks into a pass (e.g. which of
+        // several clashing names an error message quotes) the pass is not a function of the digested state and the
+        // loop may still end. Only a loop that has repeated a state AND is still running at the pass bound counts.
+        if !s.0.insert(digest) && !matches!(s.2, PassVerdict::Diverged { .. }) {
             s.2 = PassVerdict::Diverged { at_pass: pass };
-            return false;
         }
         if pass + 1 >= max {
-            s.2 = PassVerdict::Inconclusive { at_pass: pass };
+            if !matches!(s.2, PassVerdict::Diverged { .. }) {
+                s.2 = PassVerdict::Inconclusive { at_pass: pass };
+            }
             return false;
         }
         true
@@ -398,7 +402,9 @@ pub fn codegen_observed(
     let (ctx, mut diags) = codegen(tree, options);
     mos_core::codegen::verif_hook::set_pass_observer(None);
     let s = state.borrow();
-    let verdict = s.2.clone();
+    // the loop ended by itself before the bound: whatever repeated, it terminated
+    let stopped_by_observer = diags.iter().any(|d| d.message.starts_with("verification: pass loop stopped"));
+    let verdict = if stopped_by_observer { s.2.clone() } else { PassVerdict::Ended };
     if verdict != PassVerdict::Ended {
         // remove the synthetic diagnostic the hook added
         let kept: Vec<_> = diags
